@@ -164,10 +164,10 @@ def gen_plan(seed, cfg):
         if op['op'] == 'load' and re_.random() < 0.4:
             op['override'] = [[re_.randrange(3), re_.randrange(8), re_.choice([re_.randint(1, 50), 'ov', 2.5, True])]
                               for _ in range(re_.choice([1, 1, 2]))]
-        if op['op'] == 'load' and not op.get('via_link') and re_.random() < 0.25:
-            op['defer'] = True      # the executor is given its source now and asked its first question at the end of the run
             if re_.random() < 0.5:
                 op['reset_source'] = True
+        if op['op'] == 'load' and not op.get('via_link') and not op.get('override') and re_.random() < 0.3:
+            op['defer'] = True      # the executor is given its source now and asked its first question at the end of the run
     if swarm['relative']:
         for op in ops:
             if op['op'] in ('write', 'load') and re_.random() < 0.6:
